@@ -884,6 +884,8 @@ func (c *Context) Log10(d, x *Decimal) (Condition, error) {
 		return 0, err
 	}
 	res |= qr
+	// nc has the package's exponent limits; fit the result to c's range.
+	res |= c.round(d, d)
 	return c.goError(res)
 }
 
